@@ -957,6 +957,11 @@ class Message:
                 message.iv, decrypted_data = payload_sk.decrypt(crypto)
                 message.encrypted_payloads = cls._parse_payloads(decrypted_data, payload_sk.next_payload_type)
 
+            # with keys, the payloads of anything other than an IKE_SA_INIT message have to be inside a Payload SK
+            elif (crypto is not None and len(data) > 28
+                    and message.exchange_type != Message.Exchange.IKE_SA_INIT):
+                raise InvalidSyntax('Payloads are not protected by a Payload SK')
+
         return message
 
     @staticmethod
